@@ -25,7 +25,7 @@ func genKey(t *rapid.T) string {
 }
 
 func genRT(t *rapid.T) RT {
-	r := RT{Ctor: rapid.SampledFrom([]string{"insert", "insert", "update", "updateold", "delete", "deleteold", "reset", "snapstart", "snapend"}).Draw(t, "ctor")}
+	r := RT{Ctor: rapid.SampledFrom([]string{"insert", "insert", "update", "updateold", "updatesame", "delete", "deleteold", "reset", "snapstart", "snapend"}).Draw(t, "ctor")}
 	r.Key = genKey(t)
 	r.Name = strings.ReplaceAll(strings.ToValidUTF8(rapid.OneOf(rapid.SampledFrom([]string{"", "Zoë", "名", "<x>&", "q\"\\", "\x00\x1f"}), rapid.StringN(0, 6, 20)).Draw(t, "name"), ""), "�", "")
 	r.I64 = rapid.OneOf(rapid.SampledFrom([]int64{0, math.MaxInt64, math.MinInt64, 1<<53 + 1}), rapid.Int64()).Draw(t, "i64")
